@@ -206,8 +206,18 @@ def os_roundtrip_obs(prefix):
             for v, n in enumerate(["alloc", "alloc_aligned", "alloc_aligned_at_offset"])]
 
 
+def td_obs(prefix):
+    obs = []
+    for slot in (0, 31):
+        for e, ch in (("td_zalloc", 0), ("td_zalloc", 1), ("td_free", None), ("td_collect", None)):
+            obs.append(O("%s.%s%s.slot%d" % (prefix, e, "" if ch is None else ".c%d" % ch, slot), "init_layer.c", "h_" + e, defines=["SLOT=%d" % slot] + ([] if ch is None else ["CACHEHAS=%d" % ch]), unwind=40, unwindset=["_mi_os_alloc.0:1200", "make_cache.0:1200", "h_td_zalloc.0:1200", "_mi_memzero_aligned.0:1200"],
+                         std_checks=False, native_replay=False, cost=20, funcs=["mi_thread_data_zalloc", "mi_thread_data_free", "_mi_thread_data_collect"],
+                         bounds="thread-metadata cache with a (dirty) block in slot %d or empty / completely full; OS may refuse" % slot))
+    return obs
+
+
 def c11():
-    return os_roundtrip_obs("C11") + [ar_ob("C11.abandon_os.len%d_t%d" % (ln, tg), "h_abandon_os", defines=["LISTLEN=%d" % ln, "TARGET=%d" % tg], replace=LOCK_REPL, cost=20,
+    return os_roundtrip_obs("C11") + td_obs("C11") + [ar_ob("C11.abandon_os.len%d_t%d" % (ln, tg), "h_abandon_os", defines=["LISTLEN=%d" % ln, "TARGET=%d" % tg], replace=LOCK_REPL, cost=20,
                                             funcs=["mi_arena_segment_os_clear_abandoned", "mi_arena_segment_os_mark_abandoned"],
                                             bounds="abandoned OS segments stay reclaimable (so they can be freed): list of %d, entry %d" % (ln, tg)) for ln, tg in ((1, 0), (2, 1), (3, 1))] + [
         arena_free_ob("C11"),
@@ -483,10 +493,18 @@ PROPS["C17"] = dict(
 )
 
 
+def abandoned_visit_ob(prefix):
+    return ar_ob(prefix + ".abandoned_visit", "h_abandoned_visit", cost=10, unwind=8,
+                 replace={"_mi_arena_field_cursor_init": "stub_cursor_init", "_mi_arena_field_cursor_done": "stub_cursor_done",
+                          "_mi_arena_segment_clear_abandoned_next": "stub_clear_abandoned_next", "_mi_arena_segment_mark_abandoned": "stub_mark_abandoned"},
+                 funcs=["mi_abandoned_visit_blocks"], bounds="0-3 abandoned segments, visitor stopping after 0-3 segments, option on/off")
+
+
 def c12():
     obs = page_obs("C12", [E_VISIT], sizes=((32, 5),), flavours=("release",))
     obs += page_obs("C12", [E_VISIT], sizes=((48, 4),), flavours=("release",), tier="thorough", timeout=1800)
     obs += page_obs("C12", [E_VISIT], sizes=((48, 3),), flavours=("debug",), tier="extended", timeout=3000)
+    obs.append(abandoned_visit_ob("C12"))
     for b in (1, 2, 6, 9, 13, 22, 33, 40, 43, 48):
         obs.append(O("C12.fast_divide.bin%02d" % b, "c16_arith.c", "h_fast_divide", defines=["BIN=%d" % b], funcs=["mi_get_fast_divisor", "mi_fast_divide"], cost=30,
                      bounds="real bin %d, all block offsets inside a page of up to 2^16 blocks" % b, timeout=600))
@@ -735,6 +753,7 @@ def c09():
                          bounds="abandoned OS list of %d segments, reclaiming entry %d (%s)" % (ln, tg, "not on the list" if tg >= ln else "on the list")))
     obs += lists_obs("C09")[:1]
     obs += reclaim_obs("C09")
+    obs.append(abandoned_visit_ob("C09"))
     return obs
 
 
@@ -812,7 +831,7 @@ PROPS["C13"] = dict(
 
 
 def c07():
-    return os_roundtrip_obs("C07") + seg_shape_obs("C07", ["seg_commit"]) + [arena_alloc_ob("C07"),
+    return os_roundtrip_obs("C07") + seg_shape_obs("C07", ["seg_commit"]) + [o for o in td_obs("C07") if "td_zalloc.c0" in o["id"]] + [arena_alloc_ob("C07"),
         os_ob("C07.os_purge_commit", "h_purge", funcs=["_mi_os_commit_ex", "_mi_os_purge_ex"], cost=20, bounds="commit/purge with refusing OS")]
 
 
